@@ -11,10 +11,10 @@ CONSTANTS
   AuctionImpl = "intended"
   Resolution = "locked"
   MaxRounds = 0
-  ScenLen = 9
+  ScenLen = 5
   MaxSignFail = 1
   History = FALSE
   Matrix = FALSE
-  Script = "none"
+  Script = "after"
 INVARIANTS Emit
 CHECK_DEADLOCK FALSE
